@@ -289,8 +289,17 @@ class Env:
         from hippolyzer.lib.proxy.addons import AddonManager
         from hippolyzer.lib.proxy.sessions import SessionManager
         from hippolyzer.lib.proxy.settings import ProxySettings
+        import hippolyzer.lib.proxy.inventory_manager as pim
         self.loop = _VirtualLoop()
         asyncio.set_event_loop(self.loop)
+        # handler exceptions are swallowed and logged by the event dispatcher: the log is an observable of this property
+        self._log_state = (logging.root.manager.disable, logging.root.level)
+        logging.disable(logging.NOTSET)
+        if logging.root.level > logging.WARNING or logging.root.level == logging.NOTSET:
+            logging.root.setLevel(logging.WARNING)
+        # every new proxy session scans $HOME for viewer inventory caches; irrelevant here, and it must not depend on the machine
+        self._pim, self._pim_iter = pim, pim.iter_viewer_cache_dirs
+        pim.iter_viewer_cache_dirs = lambda: iter(())
         self.sm = SessionManager(ProxySettings())
         AddonManager.init([], self.sm, [], swallow_addon_exceptions=False)
         self.transport = _Transport()
@@ -311,6 +320,9 @@ class Env:
     def close(self):
         from hippolyzer.lib.proxy.addons import AddonManager
         logging.getLogger().removeHandler(self.catcher)
+        logging.disable(self._log_state[0])
+        logging.root.setLevel(self._log_state[1])
+        self._pim.iter_viewer_cache_dirs = self._pim_iter
         try:
             AddonManager.shutdown()
             AddonManager.FRESH_ADDON_MODULES.clear()
